@@ -79,6 +79,13 @@ Theorem C05_model_meets_prop : forall id os,
   case_sig (mkCase id os (new_event os) (json_ok (new_event os)) true true) = 0%N.
 Proof. exact model_meets_prop. Qed.
 
+(* event.New stamps "date" first, so an option (Custom / CopyFrom "date") overwrites it and
+   MergeFrom keeps it *)
+Theorem C05_date_overwritable : forall v,
+  get (new_event [OStore K_date v]) K_date = Some v /\ get (new_event []) K_date = Some V_now /\
+  get (new_event [OMerge [(K_date, v)]]) K_date = Some V_now.
+Proof. intros v. repeat split. Qed.
+
 (* non-vacuity *)
 Example C05_nonvacuous :
   let os := [OStore [99]%N (VInt 1); OPayload [0; 255; 10]%N; OMerge [([99]%N, VInt 2); ([100]%N, VInt 3)]] in
@@ -101,3 +108,4 @@ Print Assumptions C05_one_value_per_key.
 Print Assumptions C05_last_write_wins.
 Print Assumptions C05_event_payload_coherent.
 Print Assumptions C05_model_meets_prop.
+Print Assumptions C05_date_overwritable.
